@@ -131,7 +131,12 @@ func same(a, b outcome) (bool, string) {
 	return true, ""
 }
 
-// in: files {path: text}, edits [{set: {path: text}, del: [path]}], par, timeout_ms, evict ("file" | "none" | "all")
+// in: files {path: text}, edits [{set: {path: text}, del: [path], ws: [path], relink: bool}], par, timeout_ms,
+// evict ("file" | "none" | "all"), workspace [path].
+// Without "workspace" the workspace is the sorted set of all files and follows additions / deletions.  With
+// "workspace" the members (and their order) are chosen by the input: the opener may hold files that are not
+// members (compiled only as imports, or not at all), an edit's "ws" replaces the member list, and "relink"
+// asks for a new Workspace value (= a new Link key) even when the member list is unchanged.
 func recompileCase(in map[string]any) map[string]any {
 	files := map[string]string{}
 	if m, ok := in["files"].(map[string]any); ok {
@@ -167,7 +172,19 @@ func recompileCase(in map[string]any) map[string]any {
 		sort.Strings(ps)
 		return ps
 	}
-	ws := source.NewWorkspace(paths()...)
+	explicit := false
+	var members []string
+	if _, ok := in["workspace"]; ok {
+		explicit = true
+		members = vhlib.Strs(in, "workspace")
+	}
+	wsPaths := func() []string {
+		if explicit {
+			return append([]string(nil), members...)
+		}
+		return paths()
+	}
+	ws := source.NewWorkspace(wsPaths()...)
 	var steps []any
 	step := func(label string) bool {
 		inc := link(ex, op, sess, ws, to)
@@ -177,7 +194,7 @@ func recompileCase(in map[string]any) map[string]any {
 			fm.Add(p, t)
 		}
 		var fop source.Opener = &source.Openers{fm, source.WKTs()}
-		fresh := link(incremental.New(incremental.WithParallelism(par)), fop, new(ir.Session), source.NewWorkspace(paths()...), to)
+		fresh := link(incremental.New(incremental.WithParallelism(par)), fop, new(ir.Session), source.NewWorkspace(wsPaths()...), to)
 		ok, why := same(inc, fresh)
 		// determinism of the reference itself (a second fresh compilation)
 		fm2 := source.NewMap(nil)
@@ -185,10 +202,10 @@ func recompileCase(in map[string]any) map[string]any {
 			fm2.Add(p, t)
 		}
 		var fop2 source.Opener = &source.Openers{fm2, source.WKTs()}
-		fresh2 := link(incremental.New(incremental.WithParallelism(par)), fop2, new(ir.Session), source.NewWorkspace(paths()...), to)
+		fresh2 := link(incremental.New(incremental.WithParallelism(par)), fop2, new(ir.Session), source.NewWorkspace(wsPaths()...), to)
 		det, _ := same(fresh, fresh2)
 		o := map[string]any{"label": label, "equal": ok, "why": why, "fresh_deterministic": det, "keys": len(ex.Keys()),
-			"ndiags": len(fresh.diags), "nfiles": len(files)}
+			"ndiags": len(fresh.diags), "nfiles": len(files), "members": wsPaths()}
 		if !ok {
 			o["incremental"] = inc.json()
 			o["fresh"] = fresh.json()
@@ -231,11 +248,20 @@ func recompileCase(in map[string]any) map[string]any {
 			ex = incremental.New(incremental.WithParallelism(par))
 		}
 		// the workspace value is part of the Link key: keep it while the set of paths is unchanged
-		np := paths()
-		if strings.Join(np, "\x00") != strings.Join(ws.Paths(), "\x00") {
-			ws = source.NewWorkspace(np...)
+		if _, ok := e["ws"]; ok && explicit {
+			members = vhlib.Strs(e, "ws")
 		}
-		if !step(fmt.Sprintf("edit %d (%s)", ei, strings.Join(changed, ","))) {
+		np := wsPaths()
+		relinked := false
+		if strings.Join(np, "\x00") != strings.Join(ws.Paths(), "\x00") || vhlib.Bool(e, "relink") {
+			ws = source.NewWorkspace(np...)
+			relinked = true
+		}
+		label := fmt.Sprintf("edit %d (%s)", ei, strings.Join(changed, ","))
+		if explicit && relinked {
+			label += " workspace [" + strings.Join(np, ",") + "]"
+		}
+		if !step(label) {
 			break
 		}
 	}
